@@ -426,6 +426,10 @@ class InterpolatedLinearOperator(LinearOperator):
                 right_interp_values=new_right_interp_values,
             )
 
+        if isinstance(other, LinearOperator):
+            # the interpolation helpers below need a tensor: other operators get the generic (lazy) product
+            return super().matmul(other)
+
         if other.ndimension() == 1:
             is_vector = True
             other = other.unsqueeze(-1)
